@@ -5,7 +5,7 @@ from __future__ import annotations
 import os
 
 from pestverif import fullcase, gprint, refdiff
-from pestverif.runner import ROOT, Ctx
+from pestverif.runner import ROOT, Ctx, repo_root
 
 ID = "C06"
 RULE = (
@@ -40,7 +40,7 @@ def eval_case(modes, case):
     mode = case["mode"]
     worker = modes.raw if mode.startswith("raw") else modes.opt
     if "grammar_file" in case:
-        text = open(os.path.join("/repo", case["grammar_file"]), encoding="utf-8").read()
+        text = open(os.path.join(repo_root(), case["grammar_file"]), encoding="utf-8").read()
         info = case["info"]
     else:
         rules = refdiff.case_rules(case)
@@ -149,7 +149,7 @@ def run_shard(ctx: Ctx, spec):
             if files.index(gpath) % 16 != spec["idx"]:
                 continue
             rng = random.Random(ctx.sub_seed("corpus", gpath, rule))
-            text = open(os.path.join("/repo", gpath), encoding="utf-8").read()
+            text = open(os.path.join(repo_root(), gpath), encoding="utf-8").read()
             info = grammar_facts(text)
             alpha = "".join(sorted(set("".join(inputs))))[:80] or "a"
             muts = []
